@@ -197,7 +197,7 @@ fn bar_op(rng: &mut Rng, b: u64, w: usize, special: bool, fl: Flavor) -> Op {
             2 => Op::new("set_position").n(b).n(rng.below(120)),
             3 => Op::new("set_message").n(b).n(0).s(gen_tabbed(rng, "m")),
             4 => Op::new("set_prefix").n(b).n(0).s(gen_tabbed(rng, "p")),
-            5 => Op::new("set_style").n(b).n(rng.below(2)).s(gen_template(rng, &format!("S{b}"), true)).s(if rng.chance(1, 2) { gen_tabbed(rng, "o") } else { String::new() }),
+            5 => Op::new("set_style").n(b).n(rng.below(4)).s(gen_template(rng, &format!("S{b}"), true)).s(if rng.chance(1, 2) { gen_tabbed(rng, "o") } else { String::new() }),
             6 => Op::new("set_length").n(b).n(rng.below(200)),
             7 => Op::new("println").n(b).n(0).s("L"),
             8 => Op::new("suspend").n(b).n(0).s("U"),
@@ -213,7 +213,7 @@ fn bar_op(rng: &mut Rng, b: u64, w: usize, special: bool, fl: Flavor) -> Op {
         2 => Op::new("set_position").n(b).n(rng.below(120)),
         3 => Op::new("set_message").n(b).n(0).s(gen_text(rng, w, "m", 3, special)),
         4 => Op::new("set_prefix").n(b).n(0).s(gen_text(rng, w, "p", 2, special)),
-        5 => Op::new("set_style").n(b).n(rng.below(2)).s(gen_template(rng, &format!("S{b}"), false)).s(""),
+        5 => Op::new("set_style").n(b).n(rng.below(4)).s(gen_template(rng, &format!("S{b}"), false)).s(""),
         6 => Op::new("set_length").n(b).n(rng.below(200)),
         7 => Op::new("println").n(b).n(0).s(gen_text(rng, w, "L", 3, special)),
         8 => Op::new("suspend").n(b).n(0).s(gen_text(rng, w, "U", 2, false)),
